@@ -50,11 +50,13 @@ package upstream
 //@ spec func effAddr(urlHost string, dialAddr string) string = ite(len(dialAddr) > 0, dialAddr, urlHost)
 
 //@ func parseDialAddr [C18]
+//@   log parseDialAddr
 //@   ensures (result_2 != nil) == tsErr(effAddr(urlHost, dialAddr))
 //@   ensures result_2 == nil ==> result_0 == tsHost(effAddr(urlHost, dialAddr))
 //@   ensures result_2 == nil ==> result_1 == ite(tsPort(effAddr(urlHost, dialAddr)) == 0, defaultPort, tsPort(effAddr(urlHost, dialAddr)))
 
 //@ func joinPort [C18]
+//@   log joinPort
 //@   ensures result == jhp(host, itoa(port))
 
 //@ func tryRemovePort [C18]
@@ -77,3 +79,25 @@ package upstream
 //@   nobody
 //@   modifies *
 //@   ensures (result == nil) == (c == nil)
+
+// The address makers of NewUpstream (C18): the UDP-address resolver (QUIC) and the TCP dialer maker
+// (TCP, TLS, HTTPS) parse the configured address once with THEIR default port, and a bootstrap
+// resolver, if one is made, is given exactly the parsed host and port (and this upstream's own
+// bootstrap server and IP version) — never the default port in place of a configured one.
+//@ func NewUpstream$1 [C18]
+//@   modifies *
+//@   ensures calls(parseDialAddr) == 1 && arg(parseDialAddr, 0, 0) == old(addrUrlHost) && arg(parseDialAddr, 0, 1) == old(opt.DialAddr) && arg(parseDialAddr, 0, 2) == defaultPort
+//@   ensures ret(parseDialAddr, 0, 2) != nil ==> result_1 != nil && calls(bootstrapNew) == 0
+//@   ensures calls(bootstrapNew) <= 1
+//@   ensures calls(bootstrapNew) == 1 ==> arg(bootstrapNew, 0, 0) == ret(parseDialAddr, 0, 0) && arg(bootstrapNew, 0, 1) == ret(parseDialAddr, 0, 1) && arg(bootstrapNew, 0, 2) == old(bootstrapAp) && arg(bootstrapNew, 0, 3) == old(opt.BootstrapVer)
+//@   ensures calls(bootstrapNew) == 1 && ret(bootstrapNew, 0, 1) != nil ==> result_1 != nil
+//@   ensures calls(joinPort) <= 1 && (calls(joinPort) == 1 ==> arg(joinPort, 0, 0) == ret(parseDialAddr, 0, 0) && arg(joinPort, 0, 1) == ret(parseDialAddr, 0, 1))
+//@ func NewUpstream$2 [C18]
+//@   modifies *
+//@   ensures calls(parseDialAddr) == 1 && arg(parseDialAddr, 0, 0) == old(addrUrlHost) && arg(parseDialAddr, 0, 1) == old(opt.DialAddr) && arg(parseDialAddr, 0, 2) == defaultPort
+//@   ensures ret(parseDialAddr, 0, 2) != nil ==> result_1 != nil && calls(bootstrapNew) == 0
+//@   ensures calls(bootstrapNew) <= 1
+//@   ensures calls(bootstrapNew) == 1 ==> arg(bootstrapNew, 0, 0) == ret(parseDialAddr, 0, 0) && arg(bootstrapNew, 0, 1) == ret(parseDialAddr, 0, 1) && arg(bootstrapNew, 0, 2) == old(bootstrapAp) && arg(bootstrapNew, 0, 3) == old(opt.BootstrapVer)
+//@   ensures calls(bootstrapNew) == 1 && ret(bootstrapNew, 0, 1) != nil ==> result_1 != nil
+//@   ensures calls(JoinHostPort) <= 1 && (calls(JoinHostPort) == 1 ==> arg(JoinHostPort, 0, 0) == ret(parseDialAddr, 0, 0) && arg(JoinHostPort, 0, 1) == itoa(ret(parseDialAddr, 0, 1)))
+//@   ensures calls(bootstrapNew) + calls(JoinHostPort) == 0 ==> result_1 != nil
